@@ -89,6 +89,7 @@ def run(ctx):
                 for lam in ((1e-3, 1.0, 10.0) if not ctx.quick() else (1e-3, 1.0)):
                     Bq = qslst.apply_blur_fft(img, pn)
                     X = qslst.qslst_restore_fft(Bq, pn, lam)
+                    if not cm.all_finite(Bq, X): viol('C17:nonfinite', 'blur or restoration returned NaN / inf', inp); continue
                     T = An.T @ An + lam * np.eye(H * W)
                     for c in range(4):
                         res = T @ X[..., c].reshape(-1) - An.T @ Bq[..., c].reshape(-1)
